@@ -166,6 +166,9 @@ def logical_not_in_mask(ctx, P, rule="MASK-NOT", tus=None):
 def c_lints(ctx, P, scope, rule="C-LINT", tus=None):
     """Repository-wide contradiction lints, instantiated on a property's functions."""
     from sa.expr import const_int
+    if getattr(ctx, "tier", "quick") == "thorough":
+        from . import scopes as _scopes
+        scope = _scopes.callee_closure(P, scope, tus=tus)
     ctx.rule(rule, "generic contradiction lints on this property's C functions: no binary operator has textually identical operands "
                    "(`a.x > a.x`, `n - n`: a comparison or difference that was meant to involve the other object), every function "
                    "parameter is read unless it is marked TSK_UNUSED (an unread parameter is an option or argument silently ignored), "
